@@ -642,6 +642,14 @@ def check_backends(ctx):
                 found = "(%s)" % ast.unparse(a)
             ctx.ob("R20.6", "%s.%s.%s" % (DR, bname, p), ok, found=found, required="overrides Backend.%s(%s)" % (p, ast.unparse(base.args)), mod=DR, node=own[0] if own else c.node, sig="backend:%s:%s" % (bname, p),
                    trivial=True)
+    # no loop of a back-end method reads a value that an earlier iteration has replaced by something else
+    for bname in ("Backend", "TikzBackend", "MatBackend"):
+        c = m.cls("%s.%s" % (DR, bname))
+        for name, (f, kind) in sorted(c.methods.items()):
+            hits = loop_carried_rebinding(f)
+            ctx.ob("R20.6", "%s.%s.%s:loops" % (DR, bname, name), not hits, found=["`%s` in the loop at line %d" % (n, l) for l, n in hits] or "no loop-carried rebinding",
+                   required="a collection computed before a loop is not read inside it after the loop body has rebound the name to something else (the second iteration would fail)", mod=DR, node=f,
+                   sig="loop-carried:%s:%s" % (bname, name), trivial=True)
     # the dispatch of draw(): a backend is chosen for both values of to_tikz, every box node is drawn by the first matching method and the default comes last
     fn = m.func(DR + ".draw")
     ctx.analysed(DR + ".draw")
@@ -650,6 +658,43 @@ def check_backends(ctx):
         all(not (isinstance(e, ast.Tuple) and ast.unparse(e.elts[0]) == "None") for e in lst.elts[:-1])
     ctx.ob("R20.6", DR + ".draw:default-method", ok, found=ast.unparse(lst)[:160] if lst is not None else None, required="the generic box drawing is the last, unconditional entry of the dispatch list", mod=DR, node=fn,
            sig="draw-default")
+
+
+def loop_carried_rebinding(fn):
+    """(line, name): a name bound before a loop is read in the loop body before it is rebound there by a statement that does not read it: from
+    the second iteration on the read sees the rebound value (of another kind), not the one computed before the loop"""
+    from ..alpha import params_of
+
+    def reads(node, name):
+        return any(isinstance(x, ast.Name) and x.id == name and isinstance(x.ctx, ast.Load) for x in ast.walk(node))
+
+    def stores(node, name):
+        return any(isinstance(x, ast.Name) and x.id == name and isinstance(x.ctx, ast.Store) for x in ast.walk(node))
+    out = []
+
+    def walk(body, bound_before):
+        bound = set(bound_before)
+        for st in body:
+            if isinstance(st, (ast.For, ast.While)):
+                tgt = {x.id for x in ast.walk(st.target) if isinstance(x, ast.Name)} if isinstance(st, ast.For) else set()
+                assigned = {x.id for s in st.body for x in ast.walk(s) if isinstance(x, ast.Name) and isinstance(x.ctx, ast.Store)} - tgt
+                for name in sorted(assigned & bound):
+                    for s in st.body:
+                        if reads(s, name) or stores(s, name):
+                            if isinstance(s, (ast.Assign, ast.AugAssign)) and stores(s, name) and (isinstance(s, ast.AugAssign) or reads(s.value, name)):
+                                break          # an accumulator: carried on purpose
+                            if reads(s, name) and not (isinstance(s, ast.Assign) and stores(s, name) and not reads(s.value, name)):
+                                if any(isinstance(t, ast.Assign) and stores(t, name) and not reads(t.value, name) for t in st.body[st.body.index(s):]):
+                                    out.append((st.lineno, name))
+                            break
+                walk(st.body, bound | tgt)
+            if not isinstance(st, (ast.For, ast.While, ast.FunctionDef)):
+                bound |= {x.id for x in ast.walk(st) if isinstance(x, ast.Name) and isinstance(x.ctx, ast.Store)}
+            if isinstance(st, (ast.If, ast.With, ast.Try)):
+                for blk in (getattr(st, "body", []), getattr(st, "orelse", []), getattr(st, "finalbody", [])):
+                    walk(blk, bound)
+    walk(fn.body, set(params_of(fn)))
+    return out
 
 
 def check_diagramize(ctx):
@@ -815,7 +860,7 @@ def check(ctx):
     ctx.floor("R20.3", 12)
     ctx.floor("R20.4", 25)
     ctx.floor("R20.5", 24)
-    ctx.floor("R20.6", 13)
+    ctx.floor("R20.6", 30)
     ctx.floor("R20.7", 7)
     ctx.floor("R20.8", 11)
-    ctx.not_decided += ["the rendered picture (matplotlib / TikZ output), including run-time errors inside the back-ends", "diagramize on non-planar uses of the wires"]
+    ctx.not_decided += ["the rendered picture (matplotlib / TikZ output); run-time errors inside the back-ends other than missing overrides and loop-carried rebindings", "diagramize on non-planar uses of the wires"]
